@@ -4,6 +4,7 @@ import (
 	"fmt"
 	"go/token"
 	"go/types"
+	"sort"
 	"strings"
 
 	"golang.org/x/tools/go/ssa"
@@ -158,6 +159,35 @@ func c13(r *core.Report) {
 		}
 	}
 	_ = askDone
+
+	// ---- C13-NO-WAIT-UNDER-LOCK: Lock() does not look at a context. If a request path blocks (a select,
+	// a channel operation) while it holds a mutex, every other caller that needs the mutex waits in Lock() for
+	// as long as the holder waits, whatever happens to its own context.
+	r.Rule("C13-NO-WAIT-UNDER-LOCK", "no blocking select or channel operation on the Receive/ServeAsk/Ask paths runs while a mutex may be held (audited: the per-message collector lock)", 8)
+	{
+		Lmay := core.NewLocks(p, true)
+		n := 0
+		for _, fn := range pathFns {
+			for _, op := range core.BlockingOps(fn) {
+				n++
+				c := core.FnName(fn) + " " + describeOp(op)
+				held := Lmay.At[op.Instr]
+				var names []string
+				for mu := range held {
+					if mu.Name() == "mu" && mu.Pkg() != nil && strings.HasSuffix(fieldOwnerName(p, mu), "p/mbapp.collector") {
+						continue // audited in C14 (auditedForeign): one message's collector lock, taken by nothing else
+					}
+					names = append(names, fieldOwnerName(p, mu)+"."+mu.Name())
+				}
+				sort.Strings(names)
+				r.Check(len(names) == 0, "C13-NO-WAIT-UNDER-LOCK", c, p.Pos(op.Instr.Pos()), "no mutex can be held here",
+					"blocks while "+strings.Join(names, ", ")+" may be held: a concurrent caller waits in Lock(), which ignores its context, until this wait ends — its cancelled Receive/ServeAsk/Ask does not return")
+			}
+		}
+		if n == 0 {
+			r.Fail("C13-NO-WAIT-UNDER-LOCK: no blocking operation found on the request paths")
+		}
+	}
 
 	// ---- C13-CTX-EXTERNAL
 	r.Rule("C13-CTX-EXTERNAL", "blocking external calls on the Receive/ServeAsk/Ask paths receive the caller's context or are interruptible by a cancellation watcher", 6)
